@@ -417,7 +417,8 @@ class LiteralType(AbstractType):
         return LiteralType(d["literals"])
 
     def to_dict(self) -> dict[str, Any]:
-        return {"kind": self.__class__.__name__, "literals": self.literals}
+        # We have to copy the list, since the stub generator edits the dictionaries it renders
+        return {"kind": self.__class__.__name__, "literals": list(self.literals)}
 
     def __eq__(self, other: object) -> bool:
         if not isinstance(other, LiteralType):  # pragma: no cover
